@@ -13,6 +13,8 @@
 import WaveletsVerif.Properties.C01
 import WaveletsVerif.Properties.C06
 import WaveletsVerif.Properties.C05
+import WaveletsVerif.Properties.C02
+import WaveletsVerif.Lemmas.Circ
 namespace WV.C17
 open Finset WV
 variable {R : Type} [CommRing R]
@@ -59,6 +61,101 @@ theorem isometry_two_tap (a b : R) (hab : a*a + b*b = 1) (x : List R) (hx : x.le
         + (b * getN x (2*k+1) + -a * getN x (2*k)) * (b * getN x (2*k+1) + -a * getN x (2*k))
       = (a*a + b*b) * (getN x (2*k) * getN x (2*k) + getN x (2*k+1) * getN x (2*k+1)) := by ring
     _ = getN x (2*k) * getN x (2*k) + getN x (2*k+1) * getN x (2*k+1) := by rw [hab]; ring
+
+/-- **The inverse is the transpose** (any even filter length, any even signal length, no condition on the
+filter values): PyWavelets' periodization synthesis with the REVERSED analysis filters is the adjoint of the
+periodization analysis, `⟨x, S(lo,hi)⟩ = ⟨A₀x, lo⟩ + ⟨A₁x, hi⟩` for all `x, lo, hi`. -/
+theorem per_synthesis_is_transpose (h0 h1 x lo hi : List R) (n : Nat) (hn : 1 ≤ n) (hx : x.length = 2 * n)
+    (hlo : lo.length = n) (hL : 2 ≤ h0.length) (hLe : h0.length % 2 = 0) (hh1 : h1.length = h0.length) :
+    ∑ u ∈ range (2*n), getN x u * getN (Spec.idwt .periodization h0.reverse h1.reverse lo hi) u
+      = ∑ k ∈ range n, getN lo k * getN (Spec.dwt .periodization h0 x) k
+        + ∑ k ∈ range n, getN hi k * getN (Spec.dwt .periodization h1 x) k := by
+  have hodd : ¬ (x.length % 2 = 1) := by omega
+  have hdw : ∀ (h : List R), h.length = h0.length → ∀ k < n,
+      getN (Spec.dwt .periodization h x) k = ∑ j ∈ range h0.length,
+        getN h j * getZ x ((2*(k:Int) + ((h0.length/2 : Nat) : Int) - j) % ((2*n : Nat) : Int)) := by
+    intro h hh k hk
+    simp only [Spec.dwt, hodd, if_false, hh]
+    have : x.length / 2 = n := by omega
+    rw [this, getN_tab, if_pos hk, sumN_eq, hx]
+  have hsplit : ∀ u ∈ range (2*n), getN x u * getN (Spec.idwt .periodization h0.reverse h1.reverse lo hi) u
+      = getN x u * (∑ r ∈ range ((2*n + h0.length - 2) / (2*n) + 1), ∑ k ∈ range n,
+          getN lo k * getZ h0.reverse ((((u + (h0.length/2 - 1)) % (2*n) : Nat) : Int) + (r:Int) * ((2*n : Nat) : Int) - 2 * (k:Int)))
+        + getN x u * (∑ r ∈ range ((2*n + h0.length - 2) / (2*n) + 1), ∑ k ∈ range n,
+          getN hi k * getZ h1.reverse ((((u + (h0.length/2 - 1)) % (2*n) : Nat) : Int) + (r:Int) * ((2*n : Nat) : Int) - 2 * (k:Int))) := by
+    intro u hu
+    have hu' : u < 2 * n := by simpa using hu
+    rw [idwt_per_get h0.reverse h1.reverse lo hi n hn hlo (by simpa using hL) (by simp [hh1]) u hu']
+    simp only [List.length_reverse]
+    rw [← mul_add]
+    congr 1
+    rw [← Finset.sum_add_distrib]
+    apply Finset.sum_congr rfl; intro r _
+    rw [← Finset.sum_add_distrib]
+  rw [Finset.sum_congr rfl hsplit, Finset.sum_add_distrib]
+  have b0 := per_band_adjoint h0 x lo n hn hL hLe
+  have b1 := per_band_adjoint h1 x hi n hn (by omega) (by omega)
+  rw [hh1] at b1
+  rw [b0, b1]
+  congr 1
+  · apply Finset.sum_congr rfl; intro k hk
+    rw [hdw h0 rfl k (by simpa using hk)]
+  · apply Finset.sum_congr rfl; intro k hk
+    rw [hdw h1 hh1 k (by simpa using hk)]
+
+/-- **Energy preservation for every orthonormal bank** (any even filter length `L ≥ 2`, any even signal length
+`N ≥ 2`, including `N < L`): if the bank is orthonormal — `PRBank` with the synthesis filters the reversed
+analysis filters, i.e. `Σ_a h_a h_{a+2m} = δ_m` and the cross terms vanish — then the circular two-band
+analysis is an isometry, `‖A₀x‖² + ‖A₁x‖² = ‖x‖²`.  Proof: `⟨Ax, Ax⟩ = ⟨x, AᵀAx⟩ = ⟨x, SAx⟩ = ⟨x, x⟩` by
+`per_synthesis_is_transpose` and `C02.pr_periodization_even`. -/
+theorem isometry (h0 h1 x : List R) (hL : 2 ≤ h0.length) (hLe : h0.length % 2 = 0) (hh1 : h1.length = h0.length)
+    (horth : PRBank h0 h1 h0.reverse h1.reverse) (hNe : x.length % 2 = 0) (hN : 2 ≤ x.length) :
+    energy (Spec.dwt .periodization h0 x) + energy (Spec.dwt .periodization h1 x) = energy x := by
+  set n := x.length / 2 with hn
+  have hx : x.length = 2 * n := by omega
+  have hodd : ¬ (x.length % 2 = 1) := by omega
+  have hlen : ∀ h : List R, (Spec.dwt .periodization h x).length = n := by
+    intro h; simp [Spec.dwt, hodd, hn]
+  have ht := per_synthesis_is_transpose h0 h1 x (Spec.dwt .periodization h0 x) (Spec.dwt .periodization h1 x) n
+    (by omega) hx (hlen h0) hL hLe hh1
+  unfold energy
+  rw [hlen h0, hlen h1, ← ht, hx]
+  apply Finset.sum_congr rfl; intro u hu
+  have hu' : u < x.length := by rw [hx]; simpa using hu
+  rw [C02.pr_periodization_even h0 h1 h0.reverse h1.reverse x hL hLe hh1 (by simp) (by simp [hh1]) horth hNe hN u hu']
+
+/-- **Implementation-level isometry**: in the C17 regime (even `N ≥ L`) the model of `lowlevel.afb1d` in
+periodization mode returns bands whose energies add up to the energy of the input, for every orthonormal bank. -/
+theorem impl_isometry (h0 h1 x : List R) (hL : 2 ≤ h0.length) (hLe : h0.length % 2 = 0) (hh1 : h1.length = h0.length)
+    (horth : PRBank h0 h1 h0.reverse h1.reverse) (hNe : x.length % 2 = 0) (hLN : h0.length ≤ x.length) :
+    ∃ lo hi, afb1dOne .periodization h0.reverse x = some lo ∧ afb1dOne .periodization h1.reverse x = some hi ∧
+      energy lo + energy hi = energy x :=
+  ⟨_, _, per_refines_circular h0 x hLe hL hNe hLN, per_refines_circular h1 x (by omega) (by omega) hNe (by omega),
+    isometry h0 h1 x hL hLe hh1 horth hNe (by omega)⟩
+
+/-- **Implementation-level "inverse = transpose"**: in the same regime the models of `sfb1d` (with the reversed
+filters) and of `afb1d` are mutual transposes, hence `SFB1D` is the exact backward pass of `AFB1D`. -/
+theorem impl_transpose (h0 h1 x lo hi : List R) (hL : 2 ≤ h0.length) (hLe : h0.length % 2 = 0)
+    (hh1 : h1.length = h0.length) (hNe : x.length % 2 = 0) (hLN : h0.length ≤ x.length)
+    (hlo : lo.length = x.length / 2) (hhi : hi.length = x.length / 2) :
+    ∃ a0 a1 y, afb1dOne .periodization h0.reverse x = some a0 ∧ afb1dOne .periodization h1.reverse x = some a1 ∧
+      sfb1dCh .periodization h0.reverse h1.reverse lo hi = some y ∧
+      ∑ u ∈ range x.length, getN x u * getN y u
+        = ∑ k ∈ range (x.length / 2), getN lo k * getN a0 k + ∑ k ∈ range (x.length / 2), getN hi k * getN a1 k := by
+  have hx : x.length = 2 * (x.length / 2) := by omega
+  refine ⟨_, _, _, per_refines_circular h0 x hLe hL hNe hLN, per_refines_circular h1 x (by omega) (by omega) hNe (by omega),
+    C10.sfb1dCh_per_eq_idwt_partial h0.reverse h1.reverse lo hi (by simpa using hL) (by simp [hh1]) (by omega) (by omega)
+      (by simp; omega), ?_⟩
+  have := per_synthesis_is_transpose h0 h1 x lo hi (x.length / 2) (by omega) hx hlo hL hLe hh1
+  rw [← hx] at this
+  exact this
+
+/-- orthonormality is satisfiable beyond two taps: the integer bank `h0 = (0,1,0,0)`, `h1 = (0,0,1,0)`
+(a delayed lazy wavelet) is orthonormal -/
+example : PRBank ([0, 1, 0, 0] : List Int) [0, 0, 1, 0] ([0, 1, 0, 0] : List Int).reverse ([0, 0, 1, 0] : List Int).reverse := by
+  intro p hp dd hdd
+  simp only [List.length_cons, List.length_nil] at hdd ⊢
+  interval_cases p <;> interval_cases dd <;> simp [Finset.sum_range_succ, getN, getZ]
 
 /-- non-vacuity over ℤ: `a = 1, b = 0` is an orthonormal two-tap bank -/
 example : (1:Int)*1 + 0*0 = 1 := by decide
